@@ -54,7 +54,8 @@ RULE = ("hand-written packages (one per rule of the anchored code) and the findi
         "`import a.b.c [as x]`, `from pkg import submodule [as x]`, 1-6 statements over 6 names so that rebinding is frequent, __all__ = / += in "
         "list, tuple, +, starred and annotated forms and __all__.extend(...) placed anywhere, with duplicate entries, assembled from 0-3 other modules' __all__ in ONE "
         "statement (attribute form and name form mixed, the same module twice) through a module alias, a re-exported module alias, an imported "
-        "__all__ name or a re-exported renamed __all__ name; source names are listed in __all__ themselves (so wildcard imports rebind them) and "
+        "__all__ name or a re-exported renamed __all__ name; a package __init__ imports from its own submodules; statements sit in `if [not] "
+        "[typing.]TYPE_CHECKING:` / `else:` blocks (the ones that run are listed, type-checking-only ones bind fresh names); source names are listed in __all__ themselves (so wildcard imports rebind them) and "
         "are sometimes bound again after use (flow-sensitivity). Submodule attachment order is read from the directory listing (os.walk), as the "
         "loader does. A package counts for the direct comparison when the interpreter imports it identically under two submodule import orders "
         "without reading a partially initialised module; non-trivial = has a wildcard import or an __all__; distinct by source text")
@@ -1091,9 +1092,36 @@ def all_witnesses():
         _m(["wf12", "d"], False, [["from", ["wf12", "a"], "__all__", "a0", "rel"]]),
         _m(["wf12", "c"], False, [["star", ["wf12", "a"], "rel"], ["from", ["wf12", "b"], "__all__", "a0", "rel"], ["star", ["wf12", "d"], "rel"],
                                   ["setall", "list", [["name", "a0", "list"]]]])]}
+    # F13: `from .a import __all__` binds the importing module's own __all__ to a's list; Griffe records no exports
+    W["C05-F13"] = {"name": "wf13", "order": ["wf13", "wf13.a", "wf13.c", "wf13.u"], "modules": [
+        _m(["wf13"], True, []),
+        _m(["wf13", "a"], False, [["setall", "list", [["s", "f"]]], ["def", "f", "func"], ["def", "g", "func"]]),
+        _m(["wf13", "c"], False, [["star", ["wf13", "a"], "rel"], ["from", ["wf13", "a"], "g", None, "rel"], ["from", ["wf13", "a"], "__all__", None, "rel"]]),
+        _m(["wf13", "u"], False, [["star", ["wf13", "c"], "rel"]])]}
+    # F14: the else branch of `if not TYPE_CHECKING:` does not run, Griffe treats it as run-time code
+    W["C05-F14"] = {"name": "wf14", "order": ["wf14", "wf14.a", "wf14.n", "wf14.u"], "modules": [
+        _m(["wf14"], True, []),
+        _m(["wf14", "a"], False, [["def", "f", "func"], ["def", "g", "func"]]),
+        _m(["wf14", "n"], False, [["from", ["wf14", "a"], "f", None, "rel"],
+                                  ["guard", "not-tc", [["def", "h", "func"]], [["from", ["wf14", "a"], "g", "z", "rel"]]]]),
+        _m(["wf14", "u"], False, [["star", ["wf14", "n"], "rel"]])]}
+    # F15: a name bound again for type checkers only hides the run-time binding (one member per name)
+    W["C05-F15"] = {"name": "wf15", "order": ["wf15", "wf15.a", "wf15.s", "wf15.u"], "modules": [
+        _m(["wf15"], True, []),
+        _m(["wf15", "a"], False, [["def", "g", "func"]]),
+        _m(["wf15", "s"], False, [["def", "f", "func"], ["guard", "tc", [["from", ["wf15", "a"], "g", "f", "rel"]], []]]),
+        _m(["wf15", "u"], False, [["star", ["wf15", "s"], "rel"]])]}
+    # F16: a wildcard import inside `if TYPE_CHECKING:` is expanded into run-time members
+    W["C05-F16"] = {"name": "wf16", "order": ["wf16", "wf16.a", "wf16.t", "wf16.u"], "modules": [
+        _m(["wf16"], True, []),
+        _m(["wf16", "a"], False, [["def", "f", "func"]]),
+        _m(["wf16", "t"], False, [["guard", "tc", [["star", ["wf16", "a"], "rel"]], []], ["def", "h", "func"]]),
+        _m(["wf16", "u"], False, [["star", ["wf16", "t"], "rel"]])]}
     return W
 
 
+# findings about statements the Coq grammar does not have (bindings under TYPE_CHECKING guards): replayed on the implementation only
+OUTSIDE_MODEL = ("C05-F14", "C05-F15", "C05-F16")
 REPAIRED = ("C05-F1", "C05-F2", "C05-F6", "C05-F9", "C05-F11")
 
 
@@ -1365,7 +1393,10 @@ def check_packages(ctx, pkgs, stream, direct=True):
             dmi = diff_model_impl(ml, view)
             if not direct:
                 # cyclic packages: whether a chain through a cycle resolves depends on resolution order and caching (C06's subject)
-                dmi = [x for x in dmi if ["unresolved"] not in (x[2], x[3])]
+                # ... and a submodule hidden behind such an alias (the cyclic alias replaced the submodule member) is not visited
+                unres = {(x[0], x[1]) for x in dmi if ["unresolved"] in (x[2], x[3])}
+                dmi = [x for x in dmi if ["unresolved"] not in (x[2], x[3])
+                       and not (x[1] == "<module>" and tuple(x[0].rsplit(".", 1)) in unres)]
             ctx.count("c_compared")
             if dmi:
                 ctx.tie_failure("correspondence", "griffe_load(model) vs griffe.load", {"diffs": dmi[:6], "model_flags": [ml["f3"], ml["dropped"], ml["xpending"], ml["stale"]]}, case)
@@ -1440,7 +1471,7 @@ def replay_witnesses(ctx):
         d = diff_views(view, orc[i])
         ok = orc[i]["error"] is None and bool(d)
         ctx.witness(fid, ok)
-        if outs is not None:
+        if outs is not None and fid not in OUTSIDE_MODEL:
             ml = decode_load(outs[NMODEL * i])
             dmi = diff_model_impl(ml, view)
             if dmi:
